@@ -32,7 +32,7 @@ class TermModel:
         # char-level ADVANCE primitives: bodies that step the real `chars` field of &mut self
         self.char_adv = set()
         for b in prog.bodies:
-            if b.arg_count >= 1 and b.locals[1]['ty'].startswith('&mut ') and roles.tok_name and roles.tok_name in b.locals[1]['ty']:
+            if b.arg_count >= 1 and b.locals[1]['ty'].startswith('&mut ') and roles.tok_name and roles.is_scanner_ty(b.locals[1]['ty']):
                 for c in b.live_calls:
                     if (c.rdef or '') == CHAR_NEXT:
                         o = single_origin(trace_operand(b, c.args[0], through_calls=set(TRANSPARENT_CALLS)))
